@@ -243,7 +243,61 @@ func c06One(r *Run, o *opsGen, g *genetics.Genome, f *family) {
 			}
 		}
 	}
+	c06TwinHistory(r, g, f, bad)
 	r.Sample(map[string]interface{}{"genome_genes": before.Genes, "modules": before.Mods})
+}
+
+// c06TwinHistory: an exact copy behaves like the original under every later history.  The original first gets a
+// history of its own (an add-node inside the current innovation window, every gene re-enabled), is duplicated, and
+// then both receive the same sequence of structural mutations under equal innovation records and equal seeds:
+// the genomes must stay equal after every step (lookup structures a duplicate rebuilds lazily or copies must
+// answer like the original's).
+func c06TwinHistory(r *Run, g *genetics.Genome, f *family, bad func(key, what string)) {
+	a, err := genetics.VDuplicate(g, 1)
+	if err != nil {
+		return
+	}
+	base := f.env.clone()
+	step := func(kind string, x *genetics.Genome, env *venv, seed int64) (ok bool) {
+		defer func() {
+			if recover() != nil {
+				ok = false
+			}
+		}()
+		rand.Seed(seed)
+		_, e := genetics.VMutate(kind, x, env, env, f.opts, 1, 2)
+		return e == nil
+	}
+	if !step("add_node", a, base, r.Rng.Int63()) {
+		return
+	}
+	for _, x := range a.Genes {
+		x.IsEnabled = true
+	}
+	b, err := genetics.VDuplicate(a, 1)
+	if err != nil {
+		return
+	}
+	envA, envB := base.clone(), base.clone()
+	kinds := []string{"add_node", "add_node", "add_link", "add_node", "connect_sensors", "add_node"}
+	for k, kind := range kinds {
+		seed := r.Rng.Int63()
+		okA, okB := step(kind, a, envA, seed), step(kind, b, envB, seed)
+		if okA != okB || !snap(a).eq(snap(b)) {
+			bad("duplicate-diverges-under-same-history", fmt.Sprintf("original and copy differ after the same %d structural mutations (last: %s) under equal records and seeds", k+1, kind))
+			return
+		}
+		if !okA {
+			return
+		}
+		for _, x := range a.Genes {
+			x.IsEnabled = true
+		}
+		for _, x := range b.Genes {
+			x.IsEnabled = true
+		}
+	}
+	r.Hist("twin_history", "equal")
 }
 
 func c06Spawn(r *Run, g *genetics.Genome, opts *neat.Options) {
